@@ -113,6 +113,14 @@ def resolve_lits(lits, func):
 def _single_def(func, name):
     vals = [n.value for n in ast.walk(func) if isinstance(n, ast.Assign) and len(n.targets) == 1
             and isinstance(n.targets[0], ast.Name) and n.targets[0].id == name]
+    # any other binding of the name (augmented assignment, loop target, walrus, with-as) makes the single assignment meaningless
+    for n in ast.walk(func):
+        if isinstance(n, ast.AugAssign) and isinstance(n.target, ast.Name) and n.target.id == name:
+            return None
+        if isinstance(n, (ast.For, ast.comprehension)) and any(isinstance(x, ast.Name) and x.id == name for x in ast.walk(n.target)):
+            return None
+        if isinstance(n, ast.NamedExpr) and n.target.id == name:
+            return None
     return vals[0] if len(vals) == 1 else None
 
 
@@ -512,7 +520,19 @@ def rule_guards(rep: Report, repo: Repo):
                     return True
                 p_ = getattr(p_, "_parent", None)
             return False
-        related = [c for c in cands if c[1] is not None and (set(c[1]) & set(atoms_c) or not atoms_c) and not over_zip(c[0])]
+        def unresolved_local(lits_):
+            """a condition that mentions a local bound more than once (e.g. decremented under a condition): its value at the raise is not
+            what the texts say, so the comparison with the expected atoms means nothing"""
+            params_ = {a_.arg for a_ in f.args.args + f.args.kwonlyargs}
+            for t_, _p in lits_:
+                for x_ in ast.walk(t_):
+                    if isinstance(x_, ast.Name) and x_.id not in params_:
+                        binds_ = [n_ for n_ in ast.walk(f) if (isinstance(n_, ast.Assign) and any(isinstance(y_, ast.Name) and y_.id == x_.id for tt_ in n_.targets for y_ in ast.walk(tt_)))
+                                  or (isinstance(n_, ast.AugAssign) and isinstance(n_.target, ast.Name) and n_.target.id == x_.id)]
+                        if len(binds_) > 1 and any(isinstance(n_, ast.AugAssign) for n_ in binds_):
+                            return True
+            return False
+        related = [c for c in cands if c[1] is not None and (set(c[1]) & set(atoms_c) or not atoms_c) and not over_zip(c[0]) and not unresolved_local(path_condition(c[0], f))]
         unrelated = [c for c in cands if c not in related]
         if not related and unrelated:
             raise AnalysisError(RULE, f"{mod}::{q} guard `{gid}` ({what}): no raise has the expected atoms {atoms_c}, but `raise {exc}` "
